@@ -51,6 +51,11 @@ def program(name, direction):
         ins = '%s RA' % name
     else:
         ins = name
+    if name == 'li' and direction in ('fwd', 'bwd'):
+        # li of a label: leaves the label's offset; other labels around it must stay put
+        if direction == 'fwd':
+            return 'li RA, L\nM:\ninclude_bytes G0.bin\nL:\naddi x0 x0 0\ndw M', 1, 4
+        return 'addi x0 x0 0\nL:\ninclude_bytes G0.bin\nli RA, L\nM:\ndw M', 4, 2
     if name in LABELLED and direction == 'abs':
         # the target is a constant (an absolute address inside the image's address space)
         return 'addi x0 x0 0\n%s' % ins.replace(' L', ' T').replace(',L', ',T'), 2, None
@@ -104,7 +109,8 @@ def pseudo_task(name, direction, compress, li_bits, gap_bits, prop='C05'):
     tag = 'pseudo:%s:%s:%s' % (name, direction, 'c' if compress else 'n')
     res = TaskResult(tag)
     src, pline, lline = program(name, direction)
-    pl = Pipeline(GAPF if (name in LABELLED and direction != 'abs') else {})
+    labelled = (name in LABELLED and direction != 'abs') or (name == 'li' and direction in ('fwd', 'bwd'))
+    pl = Pipeline(GAPF if labelled else {})
     prof = common.FuncProfile()
     x = core.Explorer(timeout_ms=120000)
     n_ok = 0
@@ -115,11 +121,11 @@ def pseudo_task(name, direction, compress, li_bits, gap_bits, prop='C05'):
             consts['RA'] = p.int('RA', lo=0, hi=31)
         if 'RB' in src:
             consts['RB'] = p.int('RB', lo=0, hi=31)
-        if name == 'li':
+        if name == 'li' and direction not in ('fwd', 'bwd'):
             consts['K'] = p.int('K', li_bits)
         if name in LABELLED and direction == 'abs':
             consts['T'] = p.int('T', lo=0, hi=(1 << gap_bits))
-        elif name in LABELLED:
+        elif name in LABELLED or (name == 'li' and direction in ('fwd', 'bwd')):
             markers['G0'] = p.int('G0', lo=0, hi=(1 << gap_bits))
         p.notes.update(constants=consts, markers=markers)
         with prof:
@@ -199,6 +205,8 @@ def pseudo_task(name, direction, compress, li_bits, gap_bits, prop='C05'):
         exp_regs, exp_pc, free6 = regs0, seq, False
         if name in ('nop', 'fence'):
             pass
+        elif name == 'li' and 'K' not in c:
+            exp_regs = z3.Store(regs0, ra, bv32(offset_of_line(blobs, lline)))
         elif name == 'li':
             exp_regs = z3.Store(regs0, ra, bv32(c['K']))
         elif name in UNARY:
@@ -293,7 +301,9 @@ def concrete_check(pl, src, pline, lline, name, inp, compress, notes, mdl):
     rb = BV(inp.get('RB', 0), 5)
     T = base + BV(loff, 32) if lline else (base + BV(inp['T'], 32) if 'T' in inp else None)
     exp_regs, exp_pc, free6 = regs0, seq, False
-    if name == 'li':
+    if name == 'li' and 'K' not in inp:
+        exp_regs = z3.Store(regs0, ra, BV(loff, 32))
+    elif name == 'li':
         exp_regs = z3.Store(regs0, ra, BV(inp['K'] % (1 << 32), 32))
     elif name in UNARY:
         exp_regs = z3.Store(regs0, ra, UNARY[name](R(rb)))
